@@ -442,6 +442,13 @@ def impl(case):
         m, n = int(rs.integers(1, 6)), int(rs.integers(1, 6))
         q0 = rs.integers(-1, 2, size=m) if sec else np.zeros(m, dtype=int); q1 = rs.integers(-1, 2, size=n) if sec else np.zeros(n, dtype=int)
         A = np.where(np.add.outer(q0, -q1) == 0, rs.standard_normal((m, n)), 0.)
+        if rs.random() < 0.35:
+            # already sorted charges (no re-ordered copy is made inside) and a Fortran-ordered, possibly complex, matrix
+            q0 = np.sort(q0); q1 = np.sort(q1)
+            A = np.where(np.add.outer(q0, -q1) == 0, rs.standard_normal((m, n)), 0.)
+            if rs.random() < 0.5:
+                A = A + 1j * np.where(np.add.outer(q0, -q1) == 0, rs.standard_normal((m, n)), 0.)
+            A = np.asfortranarray(A) if rs.random() < 0.7 else A
         if rs.random() < 0.3:
             q0 = [int(x) for x in q0]   # python lists are legal inputs too
         operands = [A, q0, q1]
@@ -469,13 +476,21 @@ def impl(case):
     elif op == 'hamiltonian_constructor':
         k = int(rs.integers(0, 4)); Lh = max(L, 2)
         if k == 0:
-            t = rs.standard_normal((Lh, Lh)); v = rs.standard_normal((Lh, Lh, Lh, Lh)); operands = [t, v]
+            t = rs.standard_normal((Lh, Lh)); v = rs.standard_normal((Lh, Lh, Lh, Lh))
+            if rs.random() < 0.5:
+                # integral arrays with exact zeros and entries far below the others
+                t[rs.random(t.shape) < 0.2] = 0.0; v[rs.random(v.shape) < 0.2] *= 1e-16; v[rs.random(v.shape) < 0.1] = 0.0
+                t[0, 0] = 3e-15
+            operands = [t, v]
             call = lambda: ptn.molecular_hamiltonian_mpo(t, v, optimize=bool(rs.integers(0, 2)) if Lh >= 4 else True)
         elif k == 1:
             co = rs.standard_normal(Lh) + 1j * rs.standard_normal(Lh); operands = [co]
             call = lambda: ptn.linear_fermionic_mpo(co, str(rs.choice(['c', 'a'])))
         elif k == 2:
-            t = rs.standard_normal((2, 2)); v = rs.standard_normal((2, 2, 2, 2)); operands = [t, v]
+            t = rs.standard_normal((2, 2)); v = rs.standard_normal((2, 2, 2, 2))
+            if rs.random() < 0.5:
+                v[rs.random(v.shape) < 0.25] *= 1e-16; t[1, 0] = -2e-15
+            operands = [t, v]
             call = lambda: ptn.spin_molecular_hamiltonian_mpo(t, v, optimize=bool(rs.integers(0, 2)))
         else:
             operands = []; call = lambda: ptn.heisenberg_xxz_mpo(Lh, 1.0, 0.5, 0.25)
